@@ -771,10 +771,50 @@ def run(chk) -> None:
     r03c(chk, repo)
     chk.rule("R03d", "a node's position is the hull of ALL its children's positions: PositionMarker.from_child_markers builds both slices as slice(min(<child>.X.start ...), max(<child>.X.stop ...)) over every non-empty marker it is given, and BaseSegment.__init__ gives it the marker of every child")
     r03d(chk, repo)
+    chk.rule("R03e", "buffered metas are emitted in grammar order: the list Sequence.match turns into (position, meta) inserts is never sorted or reversed -- `Indent, <absent optionals>, Dedent` must come out as indent, dedent (the sum is zero either way, the running balance is not)")
+    r03e(chk, repo)
 
 
 MARKERS = "src/sqlfluff/core/parser/markers.py"
 SEGBASE = "src/sqlfluff/core/parser/segments/base.py"
+
+
+def r03e(chk, repo) -> None:
+    import ast as _ast
+
+    from ..index import last_attr, short, walk_local
+
+    SEQ_ = "src/sqlfluff/core/parser/grammar/sequence.py"
+    n = 0
+    for q, f in repo.mod(SEQ_).functions():
+        bufs = set()
+        for g in [x for x in _ast.walk(f) if isinstance(x, (_ast.GeneratorExp, _ast.ListComp))]:
+            if len(g.generators) == 1 and isinstance(g.elt, _ast.Tuple) and len(g.elt.elts) == 2 and isinstance(g.generators[0].target, _ast.Name) \
+                    and isinstance(g.elt.elts[1], _ast.Name) and g.elt.elts[1].id == g.generators[0].target.id:
+                it = g.generators[0].iter
+                if isinstance(it, _ast.Name):
+                    bufs.add(it.id)
+                elif isinstance(it, _ast.Call):
+                    n += 1
+                    chk.fail("R03e", it, f"{q}: the metas are emitted in the order of `{short(it, 40)}`, not the order they were buffered in", detail=f"{q}: metas emitted in buffer order")
+        for b in bufs:
+            n += 1
+            for x in walk_local(f):
+                bad = None
+                if isinstance(x, _ast.Call) and isinstance(x.func, _ast.Attribute) and x.func.attr in ("sort", "reverse") and isinstance(x.func.value, _ast.Name) and x.func.value.id == b:
+                    bad = short(x, 50)
+                if isinstance(x, _ast.Assign) and any(isinstance(t, _ast.Name) and t.id == b for t in x.targets) and isinstance(x.value, _ast.Call) \
+                        and last_attr(x.value) in ("sorted", "reversed") :
+                    bad = short(x, 50)
+                if bad:
+                    chk.fail(
+                        "R03e", x,
+                        f"{q}: the buffered metas `{b}` are reordered ({bad}) before they are inserted: a dedent can then precede the indent it closes and the running indentation "
+                        "balance over the leaves goes negative",
+                        detail=f"{q}: metas emitted in buffer order",
+                    )
+    chk.count("R03e.meta_insert_sites", n)
+    chk.floor("R03e.meta_insert_sites", 1)
 
 
 def r03d(chk, repo) -> None:
@@ -989,6 +1029,12 @@ _FINAL_OLD = (
 )
 
 VARIANTS = [
+    Variant(
+        "buffered-metas-sorted-dedents-first", "src/sqlfluff/core/parser/grammar/sequence.py",
+        "        insert_segments += tuple((matched_idx, meta) for meta in meta_buffer)\n\n        # Finally if we're in one of the greedy modes",
+        "        meta_buffer.sort(key=lambda m: m.indent_val)\n        insert_segments += tuple((matched_idx, meta) for meta in meta_buffer)\n\n        # Finally if we're in one of the greedy modes",
+        "R03e", "Sequence.match", "seeded C03-5: T-SQL `EXEC dbo.my_proc` dips to -1",
+    ),
     Variant(
         "parent-rendered-span-from-first-and-last-child", "src/sqlfluff/core/parser/markers.py",
         "            min(m.templated_slice.start for m in markers if m),\n            max(m.templated_slice.stop for m in markers if m),\n",
